@@ -275,7 +275,7 @@ def Full.step (f : Full) (line : String) : Full :=
   match toks.headD "" with
   | "scn" => { w := f.w.stepAll line, aw := {}, sw := {}, ew := {}, watched := [] }
   | "closed" =>
-    let w := bump f.w
+    let w := { bump f.w with hadClose := true }
     let p := peerNum (toks.getD 1 "")
     let w := if arg toks "first" != "ok" || arg toks "second" != "ok" then
         w.fail "C18" "close" s!"peer {p}: Close / repeated Close returned {arg toks "first"} / {arg toks "second"}" else w
@@ -294,6 +294,12 @@ def Full.step (f : Full) (line : String) : Full :=
       | [op, r] => r != "panic" && r != "hang" && r != modelOut op
       | _ => false)
     { f with w := if diffs.isEmpty then w else w.fail "corr" "afterclose" s!"closed store of peer {toks.getD 1 ""}: implementation {diffs}, lifecycle model disagrees" }
+  | "leveldropped" =>
+    -- Drop through an old handle after the database was reopened, over the library's own cache manager
+    let w := bump f.w
+    let bad := (toks.drop 2).filter (fun t => t.endsWith "=panic" || t.endsWith "=hang")
+    { f with w := if bad.isEmpty then w else
+        w.fail "C18" "afterclose" s!"peer {toks.getD 1 ""}: Drop through an old handle of a reopened database, then use and close of the new handle and of the instance: {bad}" }
   | "leak" =>
     let w := bump f.w
     let extra := parseInt (arg toks "extra")
